@@ -196,7 +196,7 @@ def check(pid, cfg, args):
             items = []
             for lbl, o, r in open_:
                 reg = next((g for g in regs if lbl.split('::')[0] in g.procs), regs[0])
-                items.append((lbl, solve.to_smt2(zrun.all_axioms(reg), o.hyps, o.goal)))
+                items.append((lbl, solve.Lazy(zrun.all_axioms(reg), o.hyps, o.goal)))
             for (lbl, o, r), rr in zip(open_, solve.discharge(items, z3_timeout=30000)):
                 if rr.discharged:
                     r.z3, r.cvc5 = rr.z3, rr.cvc5
@@ -243,7 +243,7 @@ def check(pid, cfg, args):
             axioms = core.prelude_axioms() + core.strlit_axioms() + cfun.api_axioms() + list(cmod.AXIOMS)
             for lbl, hyps, goal in getattr(cmod, 'LEMMAS', []):
                 # bridging lemmas (pure mathematics over the specification functions), proved on every run
-                lr, = solve.discharge([(lbl, solve.to_smt2(list(getattr(cmod, 'LEMMA_AXIOMS', axioms)), hyps, goal))])
+                lr, = solve.discharge([(lbl, solve.Lazy(list(getattr(cmod, 'LEMMA_AXIOMS', axioms)), hyps, goal))])
                 labelled.append(('cfun-lemma:%s::%s#0' % (modname, lbl), symex.Obligation('lemma:' + lbl, hyps, goal, 'lemma'), lr, 'lemma'))
             for p, status, detail, obls, npaths, ex in cfun.verify_cprocs(procs, cmod.FIELDS):
                 cfuncs.append({'function': p.name, 'file': 'src/zope/interface/_zope_interface_coptimizations.c',
@@ -251,14 +251,14 @@ def check(pid, cfg, args):
                 if status != 'ok':
                     undecided.append('%s (C, functional): %s: %s' % (p.name, status, detail))
                     continue
-                items = [(o.label, solve.to_smt2(axioms, o.hyps, o.goal)) for o in obls]
+                items = [(o.label, solve.Lazy(axioms, o.hyps, o.goal)) for o in obls]
                 seen = {}
                 for o, r in zip(obls, solve.discharge(items, both=(tier == 'thorough'))):
                     n = seen.get(o.label, 0)
                     seen[o.label] = n + 1
                     labelled.append(('cfun:%s::%s#%d' % (p.name, o.label, n), o, r, 'cfun:' + p.name))
                 if ex is not None:
-                    sm = solve.discharge([('smoke', solve.to_smt2(axioms, ex.pre, z3lib.BoolVal(False)))], z3_timeout=1500, use_cvc5=False)[0]
+                    sm = solve.discharge([('smoke', solve.Lazy(axioms, ex.pre, z3lib.BoolVal(False)))], z3_timeout=1500, use_cvc5=False)[0]
                     if sm.z3 == 'unsat':
                         errors.append('vacuous precondition for C function %s' % p.name)
                 if not obls:
@@ -370,8 +370,18 @@ def check(pid, cfg, args):
             lines.append('KNOWN-FINDING: property=%s %s' % (pid, k['what']))
     nviol = 0
     replay_path = None
-    in_ledger_failed = [(lbl, o, r) for lbl, o, r in new_failed if ledger.get(lbl, {}).get('discharged')]
-    not_in_ledger_failed = [(lbl, o, r) for lbl, o, r in new_failed if not ledger.get(lbl, {}).get('discharged')]
+    # An obligation is a contract clause of a function (``function::kind:label``); the ``#n`` suffix only numbers the paths
+    # it was generated on.  A clause that the committed ledger records as discharged on every path of the unchanged tree and
+    # that is not discharged now -- on an old path or on a path the change introduced -- counts as "discharged before,
+    # fails now".
+    def clause(lbl):
+        return lbl.rsplit('#', 1)[0]
+    ledger_clauses = {}
+    for l_lbl, l_rec in ledger.items():
+        ledger_clauses.setdefault(clause(l_lbl), []).append(bool(l_rec.get('discharged')))
+    proved_before = {c for c, flags in ledger_clauses.items() if all(flags)}
+    in_ledger_failed = [(lbl, o, r) for lbl, o, r in new_failed if clause(lbl) in proved_before]
+    not_in_ledger_failed = [(lbl, o, r) for lbl, o, r in new_failed if clause(lbl) not in proved_before]
     if witnesses or in_ledger_failed:
         nviol = len(witnesses) + (len(in_ledger_failed) if not witnesses else 0)
         rec = {
